@@ -585,3 +585,76 @@ func isIterPosition(v ssa.Value) bool {
 	fa, ok := ld.X.(*ssa.FieldAddr)
 	return ok && isNamedType(fa.X.Type(), "container/deque", "dequeIterator") && isIntType(ld.Type())
 }
+
+// C04.contiguity-siblings: the deque decides in several places whether its contents are contiguous (front <= back) or wrapped
+// around the end of the buffer (front > back): Len, resize and whoever else compares the two ends. All of these tests must cut
+// at the same point - a one-element deque (front == back) is contiguous everywhere or nowhere. A sibling that uses < where
+// the others use <= copies a one-element deque as if it were wrapped.
+var _ = late(func() {
+	p := properties["C04"]
+	p.Rules = append(p.Rules, &Rule{ID: "C04.contiguity-siblings", Floor: 2, Clause: "every comparison of a deque's front with its back (Len, resize, …) cuts at the same point: front <= back / front > back everywhere, so a one-element deque (front == back) is treated as contiguous by all of them",
+		Run: func(c *Ctx, r *R) {
+			type site struct {
+				pos  token.Pos
+				name string
+				rel  string // normalised relation between front and back: "<=", "<", "==", …
+			}
+			var sites []site
+			endField := func(v ssa.Value) string {
+				ld, ok := resolveVal(v).(*ssa.UnOp)
+				if !ok || ld.Op != token.MUL {
+					return ""
+				}
+				fa, ok := ld.X.(*ssa.FieldAddr)
+				if !ok || !isNamedType(fa.X.Type(), "container/deque", "Deque") {
+					return ""
+				}
+				f := fieldName(fa.X.Type(), fa.Field)
+				if f == "front" || f == "back" {
+					return f
+				}
+				return ""
+			}
+			for _, fn := range c.funcsOfPkg("container/deque") {
+				instrs(fn, func(b *ssa.BasicBlock, i int, in ssa.Instruction) {
+					bo, ok := in.(*ssa.BinOp)
+					if !ok {
+						return
+					}
+					switch bo.Op {
+					case token.LSS, token.LEQ, token.GTR, token.GEQ:
+					default:
+						return
+					}
+					fx, fy := endField(bo.X), endField(bo.Y)
+					if fx == "" || fy == "" || fx == fy {
+						return
+					}
+					op := bo.Op
+					if fx == "back" {
+						op = flip(op) // write as front OP back
+					}
+					// front <= back and its negation front > back are the same cut; front < back / front >= back the other one
+					rel := "<="
+					if op == token.LSS || op == token.GEQ {
+						rel = "<"
+					}
+					sites = append(sites, site{bo.Pos(), c.nameOf(fn), rel})
+				})
+			}
+			count := map[string]int{}
+			for _, s := range sites {
+				count[s.rel]++
+			}
+			major := "<="
+			if count["<"] > count["<="] {
+				major = "<"
+			}
+			for i, s := range sites {
+				r.ok(s.rel == major, s.name+"|front-vs-back#"+itoa(i+1), s.pos, "this test treats front == back (a one-element deque) differently from the other "+itoa(count[major])+" front/back comparisons of the package (which cut at front "+major+" back): a one-element deque is copied or measured as if it wrapped around")
+			}
+			if len(sites) < 2 {
+				r.undecided("container/deque|front-vs-back", token.NoPos, "fewer than two front/back comparisons found")
+			}
+		}})
+})
